@@ -9,11 +9,13 @@ import multiprocessing
 import os
 import re
 import sys
+import random
 import time
 import traceback
 from concurrent.futures import ProcessPoolExecutor, as_completed
 
 from . import core
+from . import env as envmod
 
 VERIF = os.path.dirname(os.path.dirname(os.path.abspath(__file__)))
 # (the two overrides are used by selftest/sensitivity.py only, so that runs against scratch
@@ -89,8 +91,16 @@ def _worker_init(check_id):
 def run_one(check, case):
     """Execute one case; returns outcome dict (never raises for violations)."""
     t0 = time.time()
-    out = check.run(case)
+    core.set_env(case.get("env"))
+    try:
+        out = check.run(case)
+    finally:
+        core.set_env(None)
     out.setdefault("violations", [])
+    if case.get("env"):
+        for v in out["violations"]:
+            if isinstance(v.get("case"), dict):
+                v["case"].setdefault("env", case["env"])
     out.setdefault("stats", {})
     out["wall"] = time.time() - t0
     return out
@@ -109,6 +119,13 @@ def _chunk(args):
             case = check.gen(rng, tier)
             case["seed"] = seed
             case["run"] = i
+            if getattr(check, "ENV_KNOBS", True) and "env" not in case:
+                # own PRNG stream: the knobs never perturb what gen() draws
+                case["env"] = envmod.knobs(random.Random(core.splitmix64(core.run_seed(seed, check_id, i) ^ 0xE17E17)))
+                for k in getattr(check, "ENV_EXCLUDE", ()):
+                    case["env"].pop(k, None)
+            for k in (case.get("env") or {}):
+                res["probes"]["env_knob:" + k] = res["probes"].get("env_knob:" + k, 0) + 1
             out = run_one(check, case)
         except Exception:
             res["errors"].append("run %d: %s" % (i, traceback.format_exc()[-1500:]))
@@ -130,6 +147,8 @@ def _chunk(args):
             res["kinds"][k] = res["kinds"].get(k, 0) + v
         for k, v in (out.get("probes") or {}).items():
             res["probes"][k] = res["probes"].get(k, 0) + v
+        for k, v in (st.get("env_used") or {}).items():
+            res["probes"]["env_applied:" + k] = res["probes"].get("env_applied:" + k, 0) + v
         res["digests"].update(out.get("digests") or [])
         res["schedules"].update(out.get("schedules") or [])
         for v in out["violations"]:
@@ -196,6 +215,13 @@ def shrink(check, case, v0, budget=250, wall=120.0):
         return None
 
     best = case
+    for k in sorted(case.get("env") or {}):  # simplest first: the default environment
+        cand = copy.deepcopy(best)
+        cand["env"].pop(k, None)
+        r = still(cand)
+        if r is not None:
+            best = r
+            best["env"] = cand["env"]
     progress = True
     while progress and tries[0] < budget and time.time() < t_end:
         progress = False
